@@ -54,6 +54,10 @@ def shuffle_chain(seed, order, count, start_k=0):
 def gen(ctx):
     rng = ctx.rng
     yield dict(kind="as1", hist=[[0, 1, 1, 0, 1]], order=[2, 0, 4], T=8, r=1, inner="probe:3:2:1:0", rand=0, seed=1)
+    for _ in range(ctx.n(30, 300)):
+        N = rng.randint(3, 8)
+        yield dict(kind="cont", hist=[[rng.randrange(3) for _ in range(N)]], order=rng.sample(range(N), rng.randint(1, N)), T=rng.randint(2, 7),
+                   T2=rng.randint(2, 7), r=1, inner="probe:3:2:1:0")
     for T in (70, 131, 260):
         yield dict(kind="as1", hist=[[rng.randrange(3) for _ in range(5)]], order=rng.sample(range(5), 3), T=T, r=1,
                    inner="probe:3:2:1:0", rand=int(T == 131), seed=rng.randrange(10 ** 6))
@@ -85,7 +89,7 @@ def gen(ctx):
 
 
 def line(c):
-    if c["kind"] == "init":
+    if c["kind"] in ("init", "cont"):
         return None
     T = c["T"]
     if c["kind"] == "as1":
@@ -128,7 +132,41 @@ def run(c):
         np.random.shuffle = saved
 
 
+def oracle_cont(c):
+    """ONE AsynchronousRule object drives an evolution and then its continuation: the cyclic walk through the update
+    order goes on where it stopped (k-th update overall = order[k mod len]), one listed cell per step, as within one call."""
+    import cellpylib as cpl
+    inner = Rule(c["inner"])
+    order = list(c["order"])
+    ar = cpl.AsynchronousRule(apply_rule=inner, update_order=list(order))
+    ca = np.array(c["hist"], dtype="int64")
+    try:
+        first = cpl.evolve(ca, timesteps=c["T"], apply_rule=ar, r=c["r"])
+        second = cpl.evolve(first, timesteps=c["T2"], apply_rule=ar, r=c["r"])
+    except Exception as e:
+        return "raised %s: %s" % (type(e).__name__, str(e)[:80])
+    rows = second.tolist()
+    if rows[:len(first)] != first.tolist():
+        return "the continued evolution does not start with the first one"
+    k = 0
+    L = len(order)
+    for (seg, T) in ((rows[len(c["hist"]) - 1:len(first)], c["T"]), (rows[len(first) - 1:], c["T2"])):
+        for t in range(1, T):
+            prev, cur = seg[t - 1], seg[t]
+            changed = [i for i in range(len(prev)) if prev[i] != cur[i]]
+            sched = order[k % L]
+            if any(x != sched for x in changed):
+                return "update %d overall (step %d of %s call): cells %s changed, the cyclic order schedules %d" % (
+                    k + 1, t, "the first" if seg is not rows[len(first) - 1:] and k < c["T"] - 1 else "the continued", changed, sched)
+            k += 1
+    if len(inner.log) != k:
+        return "wrapped rule invoked %d times in %d steps" % (len(inner.log), k)
+    return None
+
+
 def impl(c):
+    if c["kind"] == "cont":
+        return "n/a"
     res, inner, ar, fs = run(c)
     if isinstance(res, Exception):
         return fmt.err(res)
@@ -141,6 +179,8 @@ def impl(c):
 
 
 def oracle(c):
+    if c["kind"] == "cont":
+        return oracle_cont(c)
     res, inner, ar, fs = run(c)
     if isinstance(res, Exception):
         return "raised %s: %s" % (type(res).__name__, str(res)[:80])
@@ -197,7 +237,7 @@ def oracle(c):
 
 
 def nontrivial(c, ans):
-    if c["kind"] == "init":
+    if c["kind"] in ("init", "cont"):
         return True
     if not ans.startswith("ok"):
         return False
